@@ -70,3 +70,21 @@ Section Par.
       Ok (fold_left (fun acc x => combine acc (f x)) xs init).
   End Consume.
 End Par.
+
+(* rayon's own description of an execution: a fork-join PLAN over an index
+   interval — run the interval sequentially, or split it at [mid] and run the
+   halves, where either half may be executed first (the right half is the one
+   that gets stolen).  [plan_order] is the order in which such a plan executes
+   the items when the two halves do not overlap in time; overlapping halves
+   interleave the two orders, which is again just another list of the same
+   indices.  Used only to show that the schedules of the model include these. *)
+Inductive plan := PSeq | PFork (mid : nat) (right_first : bool) (l r : plan).
+
+Fixpoint plan_order (p : plan) (lo hi : nat) : list nat :=
+  match p with
+  | PSeq => seq lo (hi - lo)
+  | PFork mid rf l r =>
+    let m := Nat.min hi (Nat.max lo mid) in
+    if rf then plan_order r m hi ++ plan_order l lo m
+    else plan_order l lo m ++ plan_order r m hi
+  end.
